@@ -760,7 +760,7 @@ class Add:
         step = {'op': 'add', 'x': x, 'y': y, 'f': f}
         if f == 'addn':
             more = d.draw(st.lists(st.sampled_from(ys + [x]), max_size=2))
-            step['ys'] = [y] + more
+            step['ys'] = list(d.draw(st.permutations([y] + more)))      # (any position of the differently structured operand)
             step['amps'] = None if chance(d, 1, 4) else \
                 [d.draw(st.sampled_from(SCALARS + [None])) for _ in range(len(step['ys']) + 1)]
         return step
@@ -1351,7 +1351,7 @@ def draw_program(d, tier, cfg=None, min_steps=2, max_steps=6, weights=None, klas
                     f = d.draw(st.sampled_from(['add', 'sub', 'addn']))
                     step = {'op': 'add', 'x': x, 'y': y, 'f': f, 'klass': klass}
                     if f == 'addn':
-                        step['ys'] = [y] + d.draw(st.lists(st.sampled_from([x, y]), max_size=2))
+                        step['ys'] = list(d.draw(st.permutations([y] + d.draw(st.lists(st.sampled_from([x, y]), max_size=2)))))
                         step['amps'] = None if chance(d, 1, 4) else \
                             [d.draw(st.sampled_from(SCALARS + [None])) for _ in range(len(step['ys']) + 1)]
                     if d.draw(st.booleans()):
